@@ -19,7 +19,7 @@ func init() {
 			"R2: a node is handed back to the pool only on an edge where its reference count is tested to be zero (or <=0) and after the unlink routine was applied to it on every path. " +
 			"R3: Add pairs the list append with the index store, Remove pairs the unlink with the index delete. " +
 			"R4: Iterator() increments the reference count of the node it starts from and stores that node in the iterator; Close() calls the release routine exactly once and clears the pointer. " +
-			"R5: in the advance routine every new cursor value gets a reference (+1) on its incoming path and the old cursor loses one (-1) before, also between two consecutive steps. R6: payload is read only from live nodes; R7: cursor routines get only iterator cursors; R8: links are written only by node methods; R9: the unlink routine reports nil or its own successor as new head; R10: release drops its reference before testing the count. R11: the unlink routine overwrites every payload field of the node (key and value) with its zero value on every path that changes the node.",
+			"R5: in the advance routine every new cursor value gets a reference (+1) on its incoming path and the old cursor loses one (-1) before, also between two consecutive steps. R6: payload is read only from live nodes (from the index, from a skip-removed routine, or tested not to carry the removed mark on every path); R7: cursor routines get only iterator cursors (as argument, or - routines of the iterator itself - from the receiver's cursor); R8: links are written only by the list primitives (node methods, methods of a dedicated list type, the unlink and the append routine); R9: the unlink routine reports nil or its own successor as new head (or, when it re-targets the head itself, writes its own successor and only where the node is known to be the head); R10: release drops its reference before testing the count. The private routines (unlink, append, release, advance) are resolved by what they do (neighbour rewiring, payload fill, reference give-back, loop that moves a reference), wherever they live - also written out in place in the API method. R11: the unlink routine overwrites every payload field of the node (key and value) with its zero value on every path that changes the node.",
 		NotDecided: "order and liveness of what an iterator returns over all histories (a value statement); the list pointer surgery inside the unlink routine.",
 	})
 	register(&Check{
@@ -33,7 +33,8 @@ func init() {
 	})
 }
 
-// mapRoles resolves the roles of the ordered map from its exported API and types.
+// mapRoles resolves the roles of the ordered map from its exported API and types, and - for the private routines - from
+// what they do (which fields they write), not from their receiver, name or signature.
 type mapRoles struct {
 	Map, node             *types.Named
 	head, vals, refCnt    *types.Var
@@ -44,6 +45,131 @@ type mapRoles struct {
 	iterT                 *types.Named
 	itPtr                 *types.Var
 	closeFn               *ssa.Function
+
+	// unlinkSubj is the index (in unlink.Params) of the node the unlink routine takes out of the list: the receiver when
+	// the routine is a method of the node, the node parameter when it is a method of the list/map.
+	unlinkSubj int
+	// unlinkOwnsHead: the unlink routine has no "new head or nil" result; it re-targets the head field itself.
+	unlinkOwnsHead bool
+	// unlinkStoresHead: the unlink routine writes the head field.
+	unlinkStoresHead bool
+	// state / deleted: the node field and the constant the unlink routine marks a still referenced node with.
+	state      *types.Var
+	deleted    int64
+	hasDeleted bool
+}
+
+// isNodePtr reports whether t is a pointer to the node type.
+func (r *mapRoles) isNodePtr(t types.Type) bool {
+	_, isPtr := t.(*types.Pointer)
+	return isPtr && namedOf(t) == r.node
+}
+
+// isLink reports whether f is a list link: a node-pointer field of the node.
+func (r *mapRoles) isLink(f *types.Var) bool {
+	if f == nil {
+		return false
+	}
+	for _, l := range fieldsWhere(r.node, func(f *types.Var) bool { return r.isNodePtr(f.Type()) }) {
+		if l == f {
+			return true
+		}
+	}
+	return false
+}
+
+// payloadFields are the fields of the node whose type is a type parameter (key and value).
+func (r *mapRoles) payloadFields() []*types.Var {
+	return fieldsWhere(r.node, func(f *types.Var) bool {
+		_, isTP := f.Type().(*types.TypeParam)
+		return isTP
+	})
+}
+
+func (r *mapRoles) isPayload(f *types.Var) bool {
+	for _, p := range r.payloadFields() {
+		if p == f {
+			return true
+		}
+	}
+	return false
+}
+
+// partOfMap reports whether the address/value x is the map itself or a struct nested by value in it (an embedded list
+// type): the chain of field addresses from x ends at a value of the Map type.
+func (r *mapRoles) partOfMap(x ssa.Value) bool {
+	for i := 0; i < 8 && x != nil; i++ {
+		if namedOf(x.Type()) == r.Map {
+			return true
+		}
+		x = ir.Resolve(x)
+		if namedOf(x.Type()) == r.Map {
+			return true
+		}
+		fa, ok := x.(*ssa.FieldAddr)
+		if !ok {
+			return false
+		}
+		x = fa.X
+	}
+	return false
+}
+
+// linkLoadOf reports whether v is a load of a link field of the node value `of`; returns the link.
+func (r *mapRoles) linkLoadOf(v ssa.Value, of ssa.Value) (*types.Var, bool) {
+	u, ok := ir.Resolve(v).(*ssa.UnOp)
+	if !ok || u.Op != token.MUL {
+		return nil, false
+	}
+	fa, ok := u.X.(*ssa.FieldAddr)
+	if !ok || !r.isLink(ir.FieldOf(fa)) || !same(fa.X, of) {
+		return nil, false
+	}
+	return ir.FieldOf(fa), true
+}
+
+// refDelta decodes in as a change of the reference counter of a node by d: the read-modify-write store itself, or the
+// call of a straight-line helper (one block) whose only write to a counter is that change on one of its parameters
+// ("pin"/"unpin" one-liners). It returns the node.
+func (r *mapRoles) refDelta(in ssa.Instruction, d int64) (ssa.Value, bool) {
+	return refDeltaOn(in, r.refCnt, d)
+}
+
+func refDeltaOn(in ssa.Instruction, cnt *types.Var, d int64) (ssa.Value, bool) {
+	if cnt == nil {
+		return nil, false
+	}
+	if b, ok := isFieldDelta(in, cnt, d); ok {
+		return b, true
+	}
+	call, ok := in.(*ssa.Call)
+	if !ok {
+		return nil, false
+	}
+	cal := ir.StaticCallee(call)
+	if cal == nil || len(cal.Blocks) != 1 {
+		return nil, false
+	}
+	idx, n := -1, 0
+	for _, x := range cal.Blocks[0].Instrs {
+		if b, _, isSt := storeToField(x, cnt); isSt {
+			n++
+			if bb, isD := isFieldDelta(x, cnt, d); isD {
+				if prm, isP := ir.Resolve(bb).(*ssa.Parameter); isP {
+					for i, p := range cal.Params {
+						if p == prm {
+							idx = i
+						}
+					}
+				}
+			}
+			_ = b
+		}
+	}
+	if n != 1 || idx < 0 || idx >= len(call.Call.Args) {
+		return nil, false
+	}
+	return call.Call.Args[idx], true
 }
 
 func resolveMapRoles(c *Ctx) *mapRoles {
@@ -66,18 +192,21 @@ func resolveMapRoles(c *Ctx) *mapRoles {
 	r.iterFn = c.RequireFn(c.P.MethodOf(r.Map, "Iterator"), "Map.Iterator")
 	r.addFn = c.RequireFn(c.P.MethodOf(r.Map, "Add"), "Map.Add")
 	r.remFn = c.RequireFn(c.P.MethodOf(r.Map, "Remove"), "Map.Remove")
-	// head = the node-pointer field of Map that Iterator() reads; refCnt = the int field of node it increments
-	isNodePtr := func(t types.Type) bool { return namedOf(t) == r.node && t != types.Type(r.node) }
+	pkgFns := c.P.FuncsOf("container/iterable")
+	// head = the node-pointer field of Map - or of a struct nested by value in Map (an extracted list type) - that
+	// Iterator() reads; refCnt = the int field of node it increments
+	isNodePtr := r.isNodePtr
+	intFields := fieldsWhere(r.node, func(f *types.Var) bool { return types.Identical(f.Type(), types.Typ[types.Int]) })
 	var headCands, cntCands []*types.Var
 	ir.Instrs(r.iterFn, func(in ssa.Instruction) {
 		if fa, ok := in.(*ssa.FieldAddr); ok {
 			f := ir.FieldOf(fa)
-			if f != nil && isNodePtr(f.Type()) && namedOf(fa.X.Type()) == r.Map {
+			if f != nil && isNodePtr(f.Type()) && r.partOfMap(fa.X) {
 				headCands = appendUniq(headCands, f)
 			}
 		}
-		for _, f := range fieldsWhere(r.node, func(f *types.Var) bool { return types.Identical(f.Type(), types.Typ[types.Int]) }) {
-			if _, ok := isFieldDelta(in, f, 1); ok {
+		for _, f := range intFields {
+			if _, ok := refDeltaOn(in, f, 1); ok {
 				cntCands = appendUniq(cntCands, f)
 			}
 		}
@@ -88,20 +217,119 @@ func resolveMapRoles(c *Ctx) *mapRoles {
 	r.head = headCands[0]
 	c.Role("map.head", r.head.Name(), r.head.Pos())
 	if len(cntCands) != 1 {
-		// R4 reports the missing increment; fall back to the int field decremented by the release routine below
+		// R4 reports the missing increment; fall back to the int field that is counted down somewhere in the package
 		r.refCnt = nil
 	} else {
 		r.refCnt = cntCands[0]
 	}
-	// unlink = node method without parameters returning a node pointer
-	r.unlink = c.oneMethod("node.unlink", r.node, func(m *ssa.Function) bool {
-		ps, rs := sigOf(m)
-		return len(ps) == 0 && len(rs) == 1 && namedOf(rs[0]) == r.node
-	})
-	r.putVal = c.oneMethod("node.append", r.node, func(m *ssa.Function) bool {
-		ps, rs := sigOf(m)
-		return len(ps) > 0 && len(rs) == 1 && namedOf(rs[0]) == r.node
-	})
+	// unlink = the routine that takes one of its node parameters (receiver included) out of the list: it rewires a
+	// neighbour, i.e. it writes a link of a node it reached through a link of that parameter
+	type unlinkCand struct {
+		fn   *ssa.Function
+		subj int
+	}
+	var ucands []unlinkCand
+	for _, fn := range pkgFns {
+		subj := -1
+		ir.Instrs(fn, func(in ssa.Instruction) {
+			st, ok := in.(*ssa.Store)
+			if !ok {
+				return
+			}
+			fa, ok := st.Addr.(*ssa.FieldAddr)
+			if !ok || !r.isLink(ir.FieldOf(fa)) {
+				return
+			}
+			for i, p := range fn.Params {
+				if !isNodePtr(p.Type()) {
+					continue
+				}
+				if _, viaLink := r.linkLoadOf(fa.X, p); viaLink && subj < 0 {
+					subj = i
+				}
+			}
+		})
+		if subj >= 0 {
+			ucands = append(ucands, unlinkCand{fn, subj})
+		}
+	}
+	if len(ucands) != 1 {
+		var names []string
+		for _, u := range ucands {
+			names = append(names, u.fn.Name())
+		}
+		c.Fatalf("role %q: expected exactly one routine that rewires the neighbours of a node it is given, found %d %v", "node.unlink", len(ucands), names)
+	}
+	r.unlink, r.unlinkSubj = ucands[0].fn, ucands[0].subj
+	c.Role("node.unlink", relName(r.unlink), r.unlink.Pos())
+	c.Saw(r.unlink)
+	{
+		_, rs := sigOf(r.unlink)
+		reportsHead := false
+		for _, t := range rs {
+			if isNodePtr(t) {
+				reportsHead = true
+			}
+		}
+		storesHead := false
+		ir.Instrs(r.unlink, func(in ssa.Instruction) {
+			if _, _, ok := storeToField(in, r.head); ok {
+				storesHead = true
+			}
+		})
+		r.unlinkOwnsHead = !reportsHead
+		r.unlinkStoresHead = storesHead
+		// the mark of a removed but still referenced node: the constant the unlink routine stores into a field of its node
+		// that is neither a link, nor the payload, nor a counter it counts up or down
+		subj := r.unlink.Params[r.unlinkSubj]
+		ir.Instrs(r.unlink, func(in ssa.Instruction) {
+			st, ok := in.(*ssa.Store)
+			if !ok {
+				return
+			}
+			fa, ok := st.Addr.(*ssa.FieldAddr)
+			if !ok || !same(fa.X, subj) {
+				return
+			}
+			f := ir.FieldOf(fa)
+			if f == nil || r.isLink(f) || r.isPayload(f) {
+				return
+			}
+			if k, isC := ir.ConstInt(st.Val); isC {
+				if r.hasDeleted && (r.state != f || r.deleted != k) {
+					r.state = nil // ambiguous: the state facts are not used
+					return
+				}
+				r.state, r.deleted, r.hasDeleted = f, k, true
+			}
+		})
+		if r.state == nil {
+			r.hasDeleted = false
+		}
+	}
+	// append = the routine that fills a node: it stores its own parameters into the payload fields
+	var acands []*ssa.Function
+	for _, fn := range pkgFns {
+		fills := false
+		ir.Instrs(fn, func(in ssa.Instruction) {
+			if r.isFill(fn, in) {
+				fills = true
+			}
+		})
+		if fills {
+			acands = append(acands, fn)
+		}
+	}
+	if len(acands) != 1 {
+		var names []string
+		for _, m := range acands {
+			names = append(names, m.Name())
+		}
+		c.Fatalf("role %q: expected exactly one routine that stores its parameters into the payload of a node, found %d %v", "node.append", len(acands), names)
+	}
+	r.putVal = acands[0]
+	c.Role("node.append", relName(r.putVal), r.putVal.Pos())
+	c.Saw(r.putVal)
 	// iterator type: the concrete type Iterator() returns
 	for _, ret := range ir.Returns(r.iterFn) {
 		if mi, ok := ret.Results[0].(*ssa.MakeInterface); ok {
@@ -114,35 +342,16 @@ func resolveMapRoles(c *Ctx) *mapRoles {
 	c.Role("map.iterator", r.iterT.Obj().Name(), r.iterT.Obj().Pos())
 	r.itPtr = c.oneField("iterator.cursor", r.iterT, func(f *types.Var) bool { return isNodePtr(f.Type()) })
 	r.closeFn = c.RequireFn(c.P.MethodOf(r.iterT, "Close"), "iterator.Close")
-	// release = the Map method taking a node that the iterator's Close calls
-	for _, call := range ir.Calls(r.closeFn) {
-		if cal := ir.StaticCallee(call); cal != nil && cal.Signature.Recv() != nil && namedOf(cal.Signature.Recv().Type()) == r.Map {
-			ps, _ := sigOf(cal)
-			if len(ps) == 1 && namedOf(ps[0]) == r.node {
-				r.release = cal
-			}
-		}
-	}
-	if r.release == nil {
-		c.Fatalf("role map.release: iterator Close() does not hand its cursor to a method of the map")
-	}
-	c.Role("map.release", relName(r.release), r.release.Pos())
-	c.Saw(r.release)
-	r.next = c.oneMethod("map.advance", r.Map, func(m *ssa.Function) bool {
-		ps, rs := sigOf(m)
-		if !(len(ps) == 1 && namedOf(ps[0]) == r.node && len(rs) == 1 && namedOf(rs[0]) == r.node) {
-			return false
-		}
-		return hasLoop(m)
-	})
 	if r.refCnt == nil {
-		for _, f := range fieldsWhere(r.node, func(f *types.Var) bool { return types.Identical(f.Type(), types.Typ[types.Int]) }) {
+		for _, f := range intFields {
 			found := false
-			ir.Instrs(r.release, func(in ssa.Instruction) {
-				if _, ok := isFieldDelta(in, f, -1); ok {
-					found = true
-				}
-			})
+			for _, fn := range pkgFns {
+				ir.Instrs(fn, func(in ssa.Instruction) {
+					if _, ok := refDeltaOn(in, f, -1); ok {
+						found = true
+					}
+				})
+			}
 			if found {
 				cntCands = appendUniq(cntCands, f)
 			}
@@ -152,8 +361,88 @@ func resolveMapRoles(c *Ctx) *mapRoles {
 		}
 		r.refCnt = cntCands[0]
 	}
+	// release = the Map method taking a node that the iterator's Close hands its cursor to; when Close gives the
+	// reference back itself (the routine written out in place), Close is the release routine
+	for _, call := range ir.Calls(r.closeFn) {
+		if cal := ir.StaticCallee(call); cal != nil && cal.Signature.Recv() != nil && namedOf(cal.Signature.Recv().Type()) == r.Map {
+			ps, _ := sigOf(cal)
+			if len(ps) == 1 && namedOf(ps[0]) == r.node {
+				r.release = cal
+			}
+		}
+	}
+	if r.release == nil {
+		// a method of the iterator itself that gives a reference back (it takes the node from the receiver's cursor)
+		for _, call := range ir.Calls(r.closeFn) {
+			cal := ir.StaticCallee(call)
+			if cal == nil || cal.Signature.Recv() == nil || namedOf(cal.Signature.Recv().Type()) != r.iterT || len(cal.Params) != 1 {
+				continue
+			}
+			ir.Instrs(cal, func(in ssa.Instruction) {
+				if _, ok := r.refDelta(in, -1); ok {
+					r.release = cal
+				}
+			})
+		}
+	}
+	if r.release == nil {
+		// written out in place: Close is the release routine (R4 and R10 decide whether it does release, and what)
+		r.release = r.closeFn
+	}
+	c.Role("map.release", relName(r.release), r.release.Pos())
+	c.Saw(r.release)
+	// advance = the routine that walks the list moving the reference: the Map method node -> node with a loop; or, when
+	// the stepping lives elsewhere (a method of the iterator working on its own cursor), the one routine with a loop that
+	// gives a reference back
+	advCands := c.methodsWhere(r.Map, func(m *ssa.Function) bool {
+		ps, rs := sigOf(m)
+		if !(len(ps) == 1 && namedOf(ps[0]) == r.node && len(rs) == 1 && namedOf(rs[0]) == r.node) {
+			return false
+		}
+		return hasLoop(m)
+	})
+	if len(advCands) == 0 {
+		for _, fn := range pkgFns {
+			if !hasLoop(fn) || len(fn.Blocks) == 0 {
+				continue
+			}
+			drops := false
+			ir.Instrs(fn, func(in ssa.Instruction) {
+				if _, ok := r.refDelta(in, -1); ok {
+					drops = true
+				}
+			})
+			if drops {
+				advCands = append(advCands, fn)
+			}
+		}
+	}
+	if len(advCands) != 1 {
+		var names []string
+		for _, m := range advCands {
+			names = append(names, m.Name())
+		}
+		c.Fatalf("role %q: expected exactly one matching method of %s, found %d %v", "map.advance", r.Map.Obj().Name(), len(advCands), names)
+	}
+	r.next = advCands[0]
+	c.Role("map.advance", relName(r.next), r.next.Pos())
+	c.Saw(r.next)
 	c.Role("node.refCnt", r.refCnt.Name(), r.refCnt.Pos())
 	return r
+}
+
+// isFill reports whether in stores a parameter of fn into a payload field of a node (the entry is written).
+func (r *mapRoles) isFill(fn *ssa.Function, in ssa.Instruction) bool {
+	st, ok := in.(*ssa.Store)
+	if !ok {
+		return false
+	}
+	fa, ok := st.Addr.(*ssa.FieldAddr)
+	if !ok || !r.isPayload(ir.FieldOf(fa)) || namedOf(fa.X.Type()) != r.node {
+		return false
+	}
+	prm, isP := ir.Resolve(st.Val).(*ssa.Parameter)
+	return isP && prm.Parent() == fn
 }
 
 func appendUniq(s []*types.Var, f *types.Var) []*types.Var {
@@ -165,10 +454,39 @@ func appendUniq(s []*types.Var, f *types.Var) []*types.Var {
 	return append(s, f)
 }
 
-// headPropagation is C10.R1 / C11.R2.
+// headPropagation is C10.R1 / C11.R2. Two protocols keep the head on the oldest linked node:
+//   - the unlink routine reports "new head or nil" and every call site stores a non-nil result into the head field;
+//   - the unlink routine has access to the list and re-targets the head field itself; then every call site hands it the
+//     list of the map, and inside the routine the head is written only where the unlinked node is known to be the head
+//     (it has no predecessor, or it is compared equal to the head).
 func headPropagation(c *Ctx, rule string, r *mapRoles) {
 	for _, fn := range c.P.FuncsOf("container/iterable") {
 		for _, call := range callsTo(fn, r.unlink) {
+			if r.unlinkOwnsHead {
+				ok := true
+				detail := ""
+				if !r.unlinkStoresHead {
+					ok = false
+					detail = "the unlink routine neither reports a new head to its caller nor re-targets the head field itself: after the head was unlinked the head field keeps pointing to it"
+				}
+				for i, p := range r.unlink.Params {
+					if i == r.unlinkSubj || i >= len(call.Call.Args) {
+						continue
+					}
+					holdsHead := false
+					ir.Instrs(r.unlink, func(in ssa.Instruction) {
+						if b, _, isSt := storeToField(in, r.head); isSt && same(b, p) {
+							holdsHead = true
+						}
+					})
+					if holdsHead && !r.partOfMap(call.Call.Args[i]) {
+						ok = false
+						detail = "the unlink routine re-targets the head of the list it is given, and this call site does not give it the list of the map"
+					}
+				}
+				c.Decide(rule, fn, "unlink-result->head", call, ok, detail)
+				continue
+			}
 			ok := false
 			detail := "the result of the unlink routine (new head or nil) is discarded"
 			if refs := call.Referrers(); refs != nil && len(*refs) > 0 {
@@ -226,7 +544,7 @@ func mapRules(c *Ctx, pfx string) {
 			c.NoPath(pfx+"2", "pool.Put(node)", call, ir.Query{Fn: fn,
 				Block: func(x ssa.Instruction) bool {
 					cl, ok := x.(*ssa.Call)
-					return ok && ir.StaticCallee(cl) == r.unlink && same(cl.Call.Args[0], arg)
+					return ok && ir.StaticCallee(cl) == r.unlink && r.unlinkSubj < len(cl.Call.Args) && same(cl.Call.Args[r.unlinkSubj], arg)
 				},
 				Target: func(x ssa.Instruction) bool { return x == ssa.Instruction(call) },
 			}, "the node is recycled without having been unlinked")
@@ -245,7 +563,19 @@ func mapRules(c *Ctx, pfx string) {
 			_, isVals := loadOfField(mu.Map, r.vals)
 			return isVals
 		}
-		puts := callsTo(fn, r.putVal)
+		// the append events of Add: the calls of the append routine; when Add fills the node itself (the routine written
+		// out in place), the stores of its parameters into the payload
+		var puts []ssa.Instruction
+		for _, pc := range callsTo(fn, r.putVal) {
+			puts = append(puts, pc)
+		}
+		if fn == r.putVal {
+			ir.Instrs(fn, func(x ssa.Instruction) {
+				if r.isFill(fn, x) {
+					puts = append(puts, x)
+				}
+			})
+		}
 		if len(puts) == 0 {
 			c.Decide(pfx+"3", fn, "append+index", nil, false, "Add does not call the list append routine")
 		}
@@ -287,7 +617,7 @@ func mapRules(c *Ctx, pfx string) {
 		fn := r.iterFn
 		var incBase ssa.Value
 		ir.Instrs(fn, func(in ssa.Instruction) {
-			if b, ok := isFieldDelta(in, r.refCnt, 1); ok {
+			if b, ok := r.refDelta(in, 1); ok {
 				incBase = b
 			}
 		})
@@ -297,7 +627,7 @@ func mapRules(c *Ctx, pfx string) {
 			detail = "the node whose count is incremented is not the one stored in the iterator"
 			ir.Instrs(fn, func(in ssa.Instruction) {
 				if _, v, isSt := storeToField(in, r.itPtr); isSt {
-					if samePath(v, incBase) || same(v, incBase) {
+					if samePath(v, incBase) || same(v, incBase) || same(peelIdentity(v), incBase) || samePath(peelIdentity(v), incBase) {
 						ok = true
 					}
 				}
@@ -306,18 +636,60 @@ func mapRules(c *Ctx, pfx string) {
 		c.Decide(pfx+"4", fn, "refcount+1 on start node", nil, ok, detail)
 
 		cf := r.closeFn
-		isRel := func(x ssa.Instruction) bool { return isCallTo(x, r.release) }
+		// the release events of Close: the calls of the release routine; when Close is the release routine (written out in
+		// place), the places where it gives a reference back
+		inPlace := r.release == cf
+		isRel := func(x ssa.Instruction) bool {
+			if inPlace {
+				_, ok := r.refDelta(x, -1)
+				return ok
+			}
+			return isCallTo(x, r.release)
+		}
 		c.NoPath(pfx+"4", "Close releases", nil, ir.Query{Fn: cf, Block: isRel, Target: ir.IsExit}, "Close can return without releasing the cursor")
 		twice := false
-		for _, rc := range callsTo(cf, r.release) {
+		ir.Instrs(cf, func(rc ssa.Instruction) {
+			if !isRel(rc) {
+				return
+			}
+			if _, isDefer := rc.(*ssa.Defer); isDefer {
+				return
+			}
+			if _, isGo := rc.(*ssa.Go); isGo {
+				return
+			}
 			if w, _ := (ir.Query{Fn: cf, From: rc, Target: isRel}).Find(); w != nil {
 				twice = true
 			}
 			// argument is the cursor
-			if _, isCur := loadOfField(rc.Call.Args[1], r.itPtr); !isCur {
+			var released []ssa.Value
+			if inPlace {
+				b, _ := r.refDelta(rc, -1)
+				released = append(released, b)
+			} else if args := rc.(ssa.CallInstruction).Common().Args; len(args) > 1 {
+				released = append(released, args[1])
+			} else {
+				// a release routine of the iterator itself: the nodes it gives a reference back on
+				ir.Instrs(r.release, func(y ssa.Instruction) {
+					if b, ok := r.refDelta(y, -1); ok {
+						released = append(released, b)
+					}
+				})
+			}
+			isCur := len(released) > 0
+			for _, v := range released {
+				if v == nil {
+					isCur = false
+					continue
+				}
+				if _, ok := loadOfField(v, r.itPtr); !ok {
+					isCur = false
+				}
+			}
+			if !isCur {
 				c.Decide(pfx+"4", cf, "Close releases the cursor", rc, false, "the released node is not the iterator's cursor")
 			}
-		}
+		})
 		c.Decide(pfx+"4", cf, "Close releases once", nil, !twice, "the release routine can run twice in one Close")
 		c.NoPath(pfx+"4", "Close clears cursor", nil, ir.Query{Fn: cf,
 			Block: func(x ssa.Instruction) bool {
@@ -332,27 +704,27 @@ func mapRules(c *Ctx, pfx string) {
 		fn := r.next
 		incs, decs := 0, 0
 		ir.Instrs(fn, func(in ssa.Instruction) {
-			if _, ok := isFieldDelta(in, r.refCnt, 1); ok {
+			if _, ok := r.refDelta(in, 1); ok {
 				incs++
 				c.NoPath(pfx+"5", "ref+1 preceded by ref-1", in, ir.Query{Fn: fn,
-					Block:  func(x ssa.Instruction) bool { _, ok := isFieldDelta(x, r.refCnt, -1); return ok },
+					Block:  func(x ssa.Instruction) bool { _, ok := r.refDelta(x, -1); return ok },
 					Target: func(x ssa.Instruction) bool { return x == in }},
 					"the cursor moves to the next node without giving up the reference on the previous one")
 			}
-			if _, ok := isFieldDelta(in, r.refCnt, -1); ok {
+			if _, ok := r.refDelta(in, -1); ok {
 				decs++
 			}
 		})
 		// every path from a -1 to an exit or to the next -1 passes a +1 (the new cursor is referenced)
 		ir.Instrs(fn, func(in ssa.Instruction) {
-			if _, ok := isFieldDelta(in, r.refCnt, -1); ok {
+			if _, ok := r.refDelta(in, -1); ok {
 				c.NoPath(pfx+"5", "ref-1 followed by ref+1", in, ir.Query{Fn: fn, From: in,
-					Block: func(x ssa.Instruction) bool { _, ok := isFieldDelta(x, r.refCnt, 1); return ok },
+					Block: func(x ssa.Instruction) bool { _, ok := r.refDelta(x, 1); return ok },
 					Target: func(x ssa.Instruction) bool {
 						if ir.IsExit(x) {
 							return true
 						}
-						_, ok := isFieldDelta(x, r.refCnt, -1)
+						_, ok := r.refDelta(x, -1)
 						return ok
 					}},
 					"the cursor gives up its reference and the node it moves to is not referenced")
@@ -360,12 +732,12 @@ func mapRules(c *Ctx, pfx string) {
 		})
 		// between two references taken there is always one given back
 		ir.Instrs(fn, func(in ssa.Instruction) {
-			if _, ok := isFieldDelta(in, r.refCnt, 1); !ok {
+			if _, ok := r.refDelta(in, 1); !ok {
 				return
 			}
 			c.NoPath(pfx+"5", "ref+1 to ref+1 passes ref-1", in, ir.Query{Fn: fn, From: in,
-				Block:  func(x ssa.Instruction) bool { _, ok := isFieldDelta(x, r.refCnt, -1); return ok },
-				Target: func(x ssa.Instruction) bool { _, ok := isFieldDelta(x, r.refCnt, 1); return ok }},
+				Block:  func(x ssa.Instruction) bool { _, ok := r.refDelta(x, -1); return ok },
+				Target: func(x ssa.Instruction) bool { _, ok := r.refDelta(x, 1); return ok }},
 				"the cursor takes a reference on a further node without giving back the one it held on the node it leaves: that node keeps a phantom reference and is never unlinked")
 		})
 		if incs == 0 || decs == 0 {
@@ -375,31 +747,74 @@ func mapRules(c *Ctx, pfx string) {
 	c.R.Floor(pfx+"5", 2)
 	c.payloadAndCursorDiscipline(r, pfx+"6", pfx+"7")
 	c.linkCensus(r, pfx+"8")
-	// R9 the unlink routine reports as new head nil or its own successor
-	for _, ret := range ir.Returns(r.unlink) {
-		ok := true
-		for _, o := range phiClosure(ir.Resolve(ret.Results[0])) {
-			if ir.IsNilConst(o) {
-				continue
-			}
-			base, isNext := ssa.Value(nil), false
-			if u, isU := ir.Resolve(o).(*ssa.UnOp); isU {
-				if fa, isFA := u.X.(*ssa.FieldAddr); isFA && namedOf(fa.X.Type()) == r.node {
-					base, isNext = fa.X, true
-				}
-			}
-			if !isNext || len(r.unlink.Params) == 0 || ir.Resolve(base) != ssa.Value(r.unlink.Params[0]) {
-				ok = false
+	// R9 the unlink routine reports as new head nil or its own successor; when it re-targets the head itself, it writes
+	// its own successor, and only where the unlinked node is known to be the head
+	unlinked := ssa.Value(nil)
+	if r.unlinkSubj < len(r.unlink.Params) {
+		unlinked = r.unlink.Params[r.unlinkSubj]
+	}
+	isSuccessor := func(o ssa.Value) bool {
+		base, isNext := ssa.Value(nil), false
+		if u, isU := ir.Resolve(o).(*ssa.UnOp); isU {
+			if fa, isFA := u.X.(*ssa.FieldAddr); isFA && namedOf(fa.X.Type()) == r.node {
+				base, isNext = fa.X, true
 			}
 		}
-		c.Decide(pfx+"9", r.unlink, "new head is nil or the unlinked node's successor", ret, ok, "the unlink routine reports another node than its own successor as new head: the skipped node stays linked without predecessor while head points past it, a later unlink of the head goes through the middle branch and head dangles")
+		return isNext && unlinked != nil && ir.Resolve(base) == unlinked
+	}
+	if !r.unlinkOwnsHead {
+		for _, ret := range ir.Returns(r.unlink) {
+			ok := true
+			for _, o := range phiClosure(ir.Resolve(ret.Results[0])) {
+				if ir.IsNilConst(o) {
+					continue
+				}
+				if !isSuccessor(o) {
+					ok = false
+				}
+			}
+			c.Decide(pfx+"9", r.unlink, "new head is nil or the unlinked node's successor", ret, ok, "the unlink routine reports another node than its own successor as new head: the skipped node stays linked without predecessor while head points past it, a later unlink of the head goes through the middle branch and head dangles")
+		}
+	} else {
+		subj := unlinked
+		ir.Instrs(r.unlink, func(in ssa.Instruction) {
+			_, val, isSt := storeToField(in, r.head)
+			if !isSt {
+				return
+			}
+			ok := true
+			for _, o := range phiClosure(ir.Resolve(val)) {
+				if !isSuccessor(o) {
+					ok = false
+				}
+			}
+			c.Decide(pfx+"9", r.unlink, "new head is nil or the unlinked node's successor", in, ok, "the unlink routine makes another node than its own successor the new head: the skipped node stays linked without predecessor while head points past it, a later unlink of the head goes through the middle branch and head dangles")
+			guarded := hasFactCmp(in.Block(), func(cm ir.Cmp) bool {
+				if cm.Op != token.EQL {
+					return false
+				}
+				for _, xy := range [][2]ssa.Value{{cm.X, cm.Y}, {cm.Y, cm.X}} {
+					// the node has no predecessor
+					if _, isLink := r.linkLoadOf(xy[0], subj); isLink && ir.IsNilConst(xy[1]) {
+						return true
+					}
+					// the node is the head
+					if _, isHead := loadOfField(xy[0], r.head); isHead && same(xy[1], subj) {
+						return true
+					}
+				}
+				return false
+			})
+			c.Decide(pfx+"9", r.unlink, "head re-targeted only when the unlinked node is the head", in, guarded,
+				"the unlink routine writes the head field on a path where the node it unlinks is not known to be the head (no test that it has no predecessor / equals the head)")
+		})
 	}
 	// R10 release drops its own reference before it tests whether the node is free
 	{
 		fn := r.release
 		var dec ssa.Instruction
 		ir.Instrs(fn, func(in ssa.Instruction) {
-			if _, ok := isFieldDelta(in, r.refCnt, -1); ok {
+			if _, ok := r.refDelta(in, -1); ok {
 				dec = in
 			}
 		})
@@ -560,7 +975,7 @@ func (c *Ctx) payloadAndCursorDiscipline(r *mapRoles, ruleRead, ruleCursor strin
 			live[m] = true
 		}
 	}
-	cursorRoutine := map[*ssa.Function]bool{r.release: true}
+	cursorRoutine := map[*ssa.Function]bool{r.release: true, r.next: true}
 	for m := range live {
 		cursorRoutine[m] = true
 	}
@@ -576,14 +991,52 @@ func (c *Ctx) payloadAndCursorDiscipline(r *mapRoles, ruleRead, ruleCursor strin
 		}
 		return false
 	}
-	// a node value is "live" if it stems from the index, a live-cursor routine, or the iterator cursor right after
-	// it was assigned from such a routine
-	var liveNode func(fn *ssa.Function, at ssa.Instruction, v ssa.Value, depth int) bool
-	liveNode = func(fn *ssa.Function, at ssa.Instruction, v ssa.Value, depth int) bool {
+	// notDeleted decodes a comparison that is known to hold as "the state of node n is not the removed mark".
+	notDeleted := func(cm ir.Cmp) (ssa.Value, bool) {
+		if !r.hasDeleted {
+			return nil, false
+		}
+		for _, xy := range [][2]ssa.Value{{cm.X, cm.Y}, {cm.Y, cm.X}} {
+			n, isState := loadOfField(xy[0], r.state)
+			k, isC := ir.ConstInt(xy[1])
+			if !isState || !isC {
+				continue
+			}
+			if (cm.Op == token.NEQ && k == r.deleted) || (cm.Op == token.EQL && k != r.deleted) {
+				return n, true
+			}
+		}
+		return nil, false
+	}
+	// liveCursorMethod: the advance routine when it is a method of the iterator that works on the iterator's own cursor:
+	// it leaves its result in the cursor on every path (the counterpart of "cursor = advance(cursor)").
+	liveCursorMethod := map[*ssa.Function]bool{}
+	if fn := r.next; fn != nil && fn.Signature.Recv() != nil && namedOf(fn.Signature.Recv().Type()) == r.iterT && len(fn.Params) == 1 {
+		w, err := (ir.Query{Fn: fn, Block: func(x ssa.Instruction) bool {
+			b, v, ok := storeToField(x, r.itPtr)
+			return ok && same(b, fn.Params[0]) && !ir.IsNilConst(v)
+		}, Target: ir.IsExit}).Find()
+		if w == nil && err == nil {
+			liveCursorMethod[fn] = true
+		}
+	}
+	// a node value is "live" (not a removed entry) if it stems from the index, from a live-cursor routine, if it is tested
+	// not to carry the removed mark (a guard fact at the point of use, or on the edge on which a phi selects it), or if it
+	// is the iterator cursor and every path to the point of use ends with one of: the cursor assigned a live value, the
+	// iterator's own advance routine, the test that the cursor does not carry the removed mark
+	var liveNode func(fn *ssa.Function, facts []ir.Fact, v ssa.Value, depth int) bool
+	liveNode = func(fn *ssa.Function, facts []ir.Fact, v ssa.Value, depth int) bool {
 		if depth > 4 {
 			return false
 		}
 		v = ir.Resolve(v)
+		for _, f := range facts {
+			if cm, ok := f.Cmp(); ok {
+				if n, ok := notDeleted(cm); ok && same(n, v) {
+					return true
+				}
+			}
+		}
 		switch x := v.(type) {
 		case *ssa.Extract:
 			if lk, ok := x.Tuple.(*ssa.Lookup); ok {
@@ -596,8 +1049,16 @@ func (c *Ctx) payloadAndCursorDiscipline(r *mapRoles, ruleRead, ruleCursor strin
 		case *ssa.Call:
 			return live[ir.StaticCallee(x)]
 		case *ssa.Phi:
-			for _, e := range x.Edges {
-				if !liveNode(fn, at, e, depth+1) {
+			for i, e := range x.Edges {
+				var efacts []ir.Fact
+				if i < len(x.Block().Preds) {
+					pred := x.Block().Preds[i]
+					efacts = append(efacts, ir.Facts(pred)...)
+					if ef := ir.EdgeFact(pred, x.Block()); ef != nil {
+						efacts = append(efacts, *ef)
+					}
+				}
+				if !liveNode(fn, efacts, e, depth+1) {
 					return false
 				}
 			}
@@ -619,11 +1080,93 @@ func (c *Ctx) payloadAndCursorDiscipline(r *mapRoles, ruleRead, ruleCursor strin
 					}
 				}
 				if last != nil {
-					return liveNode(fn, last, last.Val, depth+1)
+					return liveNode(fn, ir.Facts(last.Block()), last.Val, depth+1)
 				}
+				// path form
+				establishes := func(in ssa.Instruction) bool {
+					if b2, val, ok := storeToField(in, r.itPtr); ok && same(b2, base) {
+						return liveNode(fn, ir.Facts(in.Block()), val, depth+1)
+					}
+					if call, ok := in.(*ssa.Call); ok && liveCursorMethod[ir.StaticCallee(call)] && len(call.Call.Args) == 1 && same(call.Call.Args[0], base) {
+						return true
+					}
+					return false
+				}
+				tested := func(f ir.Fact) bool {
+					cm, ok := f.Cmp()
+					if !ok {
+						return false
+					}
+					n, ok := notDeleted(cm)
+					if !ok {
+						return false
+					}
+					b2, isCur := loadOfField(n, r.itPtr)
+					return isCur && same(b2, base)
+				}
+				target := func(in ssa.Instruction) bool { return in == ssa.Instruction(x) }
+				if w, err := (ir.Query{Fn: fn, Block: establishes, BlockFact: tested, Target: target}).Find(); w != nil || err != nil {
+					return false
+				}
+				// nothing that moves the cursor elsewhere lies between such a point and the use
+				clean := true
+				ir.Instrs(fn, func(in ssa.Instruction) {
+					if !clean || establishes(in) {
+						return
+					}
+					moves := false
+					if b2, _, ok := storeToField(in, r.itPtr); ok && same(b2, base) {
+						moves = true
+					}
+					if call, ok := in.(ssa.CallInstruction); ok {
+						for _, a := range call.Common().Args {
+							if same(a, base) {
+								moves = true
+							}
+						}
+					}
+					if !moves {
+						return
+					}
+					if w, err := (ir.Query{Fn: fn, From: in, Block: establishes, BlockFact: tested, Target: target}).Find(); w != nil || err != nil {
+						clean = false
+					}
+				})
+				return clean
 			}
 		}
 		return false
+	}
+	// ownCursor: a cursor routine that is a method of the iterator and takes no node works on the iterator's own cursor:
+	// every node it gives a reference back on is the receiver's cursor or a node it took a reference on itself.
+	ownCursor := func(fn *ssa.Function) bool {
+		if fn == nil || fn.Signature.Recv() == nil || namedOf(fn.Signature.Recv().Type()) != r.iterT || len(fn.Params) != 1 {
+			return false
+		}
+		ok, n := true, 0
+		ir.Instrs(fn, func(in ssa.Instruction) {
+			base, isDec := r.refDelta(in, -1)
+			if !isDec {
+				return
+			}
+			n++
+			for _, o := range phiClosure(ir.Resolve(base)) {
+				o = ir.Resolve(o)
+				if b2, isCur := loadOfField(o, r.itPtr); isCur && same(b2, fn.Params[0]) {
+					continue
+				}
+				taken := false
+				ir.Instrs(fn, func(y ssa.Instruction) {
+					if b3, isInc := r.refDelta(y, 1); isInc && same(b3, o) {
+						taken = true
+					}
+				})
+				if !taken {
+					ok = false
+				}
+			}
+		})
+		return ok && n > 0
 	}
 	nReads, nCursor := 0, 0
 	for _, fn := range c.P.FuncsOf("container/iterable") {
@@ -640,33 +1183,82 @@ func (c *Ctx) payloadAndCursorDiscipline(r *mapRoles, ruleRead, ruleCursor strin
 			if u, ok := in.(*ssa.UnOp); ok && u.Op == token.MUL {
 				if fa, ok := u.X.(*ssa.FieldAddr); ok && isPayload(ir.FieldOf(fa)) && namedOf(fa.X.Type()) == r.node {
 					nReads++
-					c.Decide(ruleRead, fn, "payload read from a live node", in, liveNode(fn, in, fa.X, 0),
+					c.Decide(ruleRead, fn, "payload read from a live node", in, liveNode(fn, ir.Facts(in.Block()), fa.X, 0),
 						"an entry's key/value is read from a node that was obtained neither through the index nor through the skip-removed routine: it can be a removed entry")
 				}
 			}
 			// R7: cursor routines receive only cursors
 			if call, ok := in.(*ssa.Call); ok && ruleCursor != "" {
 				cal := ir.StaticCallee(call)
-				if !cursorRoutine[cal] || len(call.Call.Args) < 2 {
+				if !cursorRoutine[cal] {
+					return
+				}
+				if len(call.Call.Args) < 2 {
+					// a cursor routine of the iterator itself: it takes its node from the receiver's cursor
+					if cal.Signature.Recv() != nil && namedOf(cal.Signature.Recv().Type()) == r.iterT {
+						nCursor++
+						// ... of an iterator that holds its reference: the caller's own receiver, or one obtained from Iterator()
+						holder := false
+						if len(call.Call.Args) == 1 {
+							it := ir.Resolve(call.Call.Args[0])
+							if rt == r.iterT && len(fn.Params) > 0 && it == ssa.Value(fn.Params[0]) {
+								holder = true
+							}
+							if ta, isTA := it.(*ssa.TypeAssert); isTA {
+								it = ir.Resolve(ta.X)
+							}
+							if mk, isCall := it.(*ssa.Call); isCall && ir.StaticCallee(mk) == r.iterFn {
+								holder = true
+							}
+						}
+						c.Decide(ruleCursor, fn, "cursor routine applied to an iterator cursor", in, holder && ownCursor(cal),
+							"a routine of the iterator that moves/releases a reference is applied to an iterator that holds no reference (neither the caller itself nor one obtained from Iterator()), or it gives back a reference on a node that is neither the iterator's cursor nor a node it referenced itself: reference counts get out of balance and removed nodes stay linked or are recycled while in use")
+					}
 					return
 				}
 				nCursor++
-				arg := ir.Resolve(call.Call.Args[1])
-				okArg := false
-				switch a := arg.(type) {
-				case *ssa.Parameter:
-					okArg = cursorRoutine[fn] // the routines pass their own cursor on
-				case *ssa.Phi:
-					okArg = cursorRoutine[fn]
-				case *ssa.UnOp:
-					if a.Op == token.MUL {
-						_, okArg = fieldAddrOf(a.X, r.itPtr)
+				var argOK func(v ssa.Value, depth int) bool
+				argOK = func(v ssa.Value, depth int) bool {
+					switch a := ir.Resolve(v).(type) {
+					case *ssa.Parameter:
+						return cursorRoutine[fn] // the routines pass their own cursor on
+					case *ssa.Phi:
+						if cursorRoutine[fn] {
+							return true
+						}
+						if depth > 3 {
+							return false
+						}
+						for _, e := range a.Edges {
+							if _, isPrm := ir.Resolve(e).(*ssa.Parameter); isPrm || !argOK(e, depth+1) {
+								return false
+							}
+						}
+						return len(a.Edges) > 0
+					case *ssa.UnOp:
+						if a.Op == token.MUL {
+							_, ok := fieldAddrOf(a.X, r.itPtr)
+							return ok
+						}
+					case *ssa.Call:
+						return live[ir.StaticCallee(a)]
 					}
-				case *ssa.Call:
-					okArg = live[ir.StaticCallee(a)]
+					return false
 				}
+				okArg := argOK(call.Call.Args[1], 0)
 				c.Decide(ruleCursor, fn, "cursor routine applied to an iterator cursor", in, okArg,
 					"a routine that moves/releases a reference is applied to a node on which the caller holds no reference (not an iterator cursor): reference counts get out of balance and removed nodes stay linked or are recycled while in use")
+			}
+			// R7, in place: an API method of the iterator that gives a reference back itself does so on the cursor
+			if ruleCursor != "" && rt == r.iterT && fn.Object() != nil && fn.Object().Exported() {
+				if base, isDec := r.refDelta(in, -1); isDec {
+					if _, isStore := in.(*ssa.Store); isStore {
+						nCursor++
+						_, isCur := loadOfField(base, r.itPtr)
+						c.Decide(ruleCursor, fn, "cursor routine applied to an iterator cursor", in, isCur,
+							"a reference is given back on a node that is not the iterator's cursor: reference counts get out of balance and removed nodes stay linked or are recycled while in use")
+					}
+				}
 			}
 		})
 	}
@@ -680,8 +1272,10 @@ func (c *Ctx) payloadAndCursorDiscipline(r *mapRoles, ruleRead, ruleCursor strin
 	_ = nCursor
 }
 
-// linkCensus is C10.R8: the list links (node-pointer fields of the node) are written only by the node's own
-// methods; list surgery elsewhere (a bulk clear, a fast path) bypasses the head/sentinel bookkeeping.
+// linkCensus is C10.R8: the list links (node-pointer fields of the node) are written only by the list primitives: the
+// node's own methods, the methods of a dedicated list type (the struct that holds the head, when that is not the Map
+// itself), and the two routines resolved as the unlink and the append routine (wherever they live); list surgery
+// elsewhere (a bulk clear, a fast path) bypasses the head/sentinel bookkeeping.
 func (c *Ctx) linkCensus(r *mapRoles, rule string) {
 	links := fieldsWhere(r.node, func(f *types.Var) bool { return namedOf(f.Type()) == r.node })
 	isLink := func(f *types.Var) bool {
@@ -692,9 +1286,22 @@ func (c *Ctx) linkCensus(r *mapRoles, rule string) {
 		}
 		return false
 	}
+	// the list type: the named struct that declares the head field
+	var listT *types.Named
+	for _, t := range c.P.NamedTypes("container/iterable") {
+		if len(fieldsWhere(t, func(f *types.Var) bool { return f.Origin() == r.head })) == 1 && t.Origin() != r.Map {
+			listT = t.Origin()
+		}
+	}
 	n := 0
 	for _, fn := range c.P.FuncsOf("container/iterable") {
 		own := fn.Signature.Recv() != nil && namedOf(fn.Signature.Recv().Type()) == r.node
+		if fn.Signature.Recv() != nil && listT != nil && namedOf(fn.Signature.Recv().Type()) == listT {
+			own = true
+		}
+		if fn == r.unlink || fn == r.putVal {
+			own = true
+		}
 		ir.Instrs(fn, func(in ssa.Instruction) {
 			st, ok := in.(*ssa.Store)
 			if !ok {
@@ -726,7 +1333,10 @@ func (c *Ctx) unlinkClearsPayload(r *mapRoles, rule string) {
 	if fn == nil || len(fn.Params) == 0 {
 		c.Fatalf("role unlink routine not resolved")
 	}
-	recv := fn.Params[0]
+	if r.unlinkSubj >= len(fn.Params) {
+		c.Fatalf("role unlink routine not resolved")
+	}
+	recv := fn.Params[r.unlinkSubj]
 	payload := fieldsWhere(r.node, func(f *types.Var) bool {
 		_, isTP := f.Type().(*types.TypeParam)
 		return isTP
@@ -734,17 +1344,7 @@ func (c *Ctx) unlinkClearsPayload(r *mapRoles, rule string) {
 	if len(payload) < 2 {
 		c.R.Errorf("%s: the node type has %d payload (type-parameter) fields, expected key and value", rule, len(payload))
 	}
-	isZero := func(v ssa.Value) bool {
-		if ir.IsZeroConst(v) {
-			return true
-		}
-		if u, ok := v.(*ssa.UnOp); ok && u.Op == token.MUL {
-			if a, ok := u.X.(*ssa.Alloc); ok && len(ir.StoresTo(a)) == 0 {
-				return true
-			}
-		}
-		return false
-	}
+	isZero := func(v ssa.Value) bool { return zeroValued(v, 0) }
 	var mutations []ssa.Instruction
 	ir.Instrs(fn, func(in ssa.Instruction) {
 		if st, ok := in.(*ssa.Store); ok {
